@@ -417,6 +417,11 @@ pub fn check(c: &FuzzCase, st: &mut Stats) -> Result<(), Viol> {
             rival_done = true;
             st.count("rival_registrations");
             check_health(&mut sc, "rival registration", false)?;
+            // the fuzzer completes its registration under the lost nick, then tries another one
+            sc.send(f, "USER fz 0 * :Late Fuzzer");
+            check_health(&mut sc, "USER after a rival took the nick", false)?;
+            sc.send(f, &format!("NICK {}x", n));
+            check_health(&mut sc, "NICK after the 433 at completion", false)?;
         }
         let raw_mode = s.pick(20) == 19;
         if raw_mode {
